@@ -299,7 +299,16 @@ impl Property for C17 {
                 world.merged = true;
                 world.normalize();
             }
-            let plan = if rng.chance(1, 2) { oracle::invisible_plan(rng, &reference) } else { Plan::new() };
+            let mut plan = if rng.chance(1, 2) { oracle::invisible_plan(rng, &reference) } else { Plan::new() };
+            let w2n = faults::count_writes(&reference, 2);
+            if w2n > 0 && rng.chance(1, 4) {
+                // the diagnostic itself cannot be written (completely): the outcome must not change
+                plan = Plan::new();
+                plan.items.push(faults::write_fault(rng, 2, w2n));
+                if rng.chance(1, 3) {
+                    plan.items.push(Item::WChunk { fd: 2, seed: rng.next_u64() >> 1, max: 1 + rng.below(10) });
+                }
+            }
             Case { label: p.label, program: p.program, aux: p.aux, world, plan }
         }
     }
@@ -428,6 +437,28 @@ fn check_w1(ctx: &Ctx, worker: usize, case: &Case) -> Outcome {
     let cmp_stdout = case.world.stdout != 3;
     let cmp_stderr = case.world.stderr != 3 || case.world.merged;
     let mut bad = vec![];
+    if r.events.iter().any(|e| e.kind == 'W' && e.fd == 2 && e.ret < 0 && e.errno != 4) {
+        // stderr refused (part of) the diagnostic: what can still be asserted is that the
+        // failure is a failure (exit 103) and that the output so far is intact
+        out.probes.push("w1-stderr-fault".into());
+        out.cells.push("w1:stderr-fault".into());
+        if r.status != reference.status {
+            bad.push(format!("exit status {} instead of {} when the diagnostic could not be written", r.status.render(), reference.status.render()));
+        }
+        if cmp_stdout && !case.world.merged && r.stdout != reference.stdout {
+            bad.push("stdout changed when the diagnostic could not be written".to_string());
+        }
+        if !bad.is_empty() {
+            out.violation = Some(v(
+                "a failing script exits with status 103 after the output of the prints completed before the failure",
+                "w1-stderr-fault-outcome",
+                format!("{}; world={} plan=[{}]", bad.join("; "), case.world.to_json(), case.plan.encode_items()),
+                format!("status={} stdout={:?}", reference.status.render(), oracle::show(&reference.stdout)),
+                &r,
+            ));
+        }
+        return out;
+    }
     if r.status != reference.status {
         bad.push("exit status differs from the reference world".to_string());
     }
